@@ -8,6 +8,8 @@ import rules_problem as rp
 import rules_problem2 as rp2
 import rules_stats2 as rs2
 import rules_mbuilder as rmb
+import rules_model as rm
+import rules_panic as rpn
 
 BOTH = ("default", "parallel")
 
@@ -62,7 +64,17 @@ PROPS["C08"] = {
     "not_decided": ["termination/panic-freedom inside nalgebra and levenberg-marquardt on finite input"],
 }
 
-PROPS["C08"]["rules"] += []
+PROPS["C08"]["rules"] += [
+    ("R-PANIC-SITES", rpn.rule_panic_sites, {}),
+    ("R-LOOPS-BOUNDED", rpn.rule_loops_bounded, {}),
+    ("R-ERR-DISCIPLINE", rules_err.rule_err_discipline, {}),
+]
+PROPS["C08"]["explanation"] = ("Three clauses on the no-panic cone (local call graph from build/set_params/residuals/jacobian/fit/fit_with_statistics/statistics accessors/"
+    "SeparableModel's trait impl and the wrapped user callables): (1) every SVD constructor call receives a matrix checked all-finite after its last arithmetic (qualifier dataflow over presence conditions); "
+    "(2) every explicit panic call, unwrap/expect, checked Sub/Neg/Shl/Shr/Div/Rem, bounds check and Index call is dominated by a guard establishing its condition or is an entry of the reviewed table (multiplicity-limited, one reason each); "
+    "(3) every natural loop is a for-loop over a finite std/nalgebra iterator and there is no recursion on the cone; model errors are never unwrapped (shared with C09).")
+PROPS["C08"]["not_decided"] = ["panics inside nalgebra on dimension mismatch (excluded by the shape rules given a model honouring the shape contract)",
+    "termination of levenberg-marquardt and of nalgebra's SVD on finite input", "behaviour on subnormals/extremes"]
 
 PROPS["C01"] = {
     "configs": BOTH,
@@ -219,4 +231,29 @@ PROPS["C18"] = {
     "explanation": "build() decision table by edge dominance: each LevMarBuilderError only under its own condition and Ok only after data present, non-zero lengths, equal row counts and fitting weights; "
                    "Ok(problem) passes LeastSquaresProblem::set_params(&mut problem, &model.params()) after the struct is built with an empty cache; each setter writes exactly its own field (frame rule), so call order only matters through last-write-wins; all constructors build the same empty builder; epsilon stored as |eps|.",
     "not_decided": ["'already exposes residuals when the model evaluates there' relies on C01/C02/C09"],
+}
+
+PROPS["C16"] = {
+    "configs": ("default",),
+    "rules": [
+        ("R-ARITY-SLOTS", rm.rule_arity_slots, {}),
+        ("R-NAME-ROUTING", rm.rule_name_routing, {}),
+        ("R-DERIV-KEY", rm.rule_deriv_key, {}),
+        ("R-COLUMN-ORDER", rm.rule_column_order, {}),
+    ],
+    "explanation": "Index typing of the routing: in each of the 10 arity dispatch impls argument slot i receives clone(params[i]) with ARGUMENT_COUNT = N under the length guard; the index mapping is the position of the f-th function parameter in the model list in declaration order and the wrapper pushes params[mapping[f]] in that order (same wrapper for functions and derivatives); "
+                   "the derivative map key is the enumerate index over the model parameter list (not taken after a filter) and eval_partial_deriv looks up the requested index in a zero-initialised matrix; eval zips the function list with the columns in insertion order and the list is only ever pushed to; set_params stores the vector unchanged.",
+    "not_decided": ["that user-supplied derivative callables are the derivatives"],
+}
+PROPS["C17"] = {
+    "configs": ("default",),
+    "rules": [
+        ("R-CHECKED-CALLS", rm.rule_checked_calls, {}),
+        ("R-ERR-STATE-PRESERVING", rm.rule_err_state_preserving, {}),
+        ("R-MODEL-GUARDS", rm.rule_model_guards, {}),
+        ("R-COLUMN-ORDER", rm.rule_column_order, {}),
+    ],
+    "explanation": "The only call site of a stored user callable is the checking helper, which returns Ok(v) only under len(v) == len(x); its callers propagate with ?; in &mut self methods of SeparableModel no field write lies on a path to Err and the parameter write is dominated by the length check; "
+                   "allocation in eval/eval_partial_deriv is dominated by the parameter-count (and index) guards; Err(DerivativeIndexOutOfBounds) only under index >= number of parameters; results are allocated |x| x |functions|.",
+    "not_decided": [],
 }
